@@ -141,6 +141,9 @@ func evalC08(c *engine.Case) engine.Verdict {
 	if len(sc.Inputs) > 0 {
 		v.Class("pre-supplied-arguments")
 	}
+	if sc.Target.Once {
+		v.Class("run-once-target")
+	}
 	reps := c.Reps
 	if reps <= 0 {
 		reps = 1
@@ -160,7 +163,44 @@ func evalC08(c *engine.Case) engine.Verdict {
 			args = append(args, argmapper.FilterOutput(x.filter(x.OutFilter)))
 		}
 		n0 := w.NumEvents()
+		w.DeficientFirst = true
+		w.RepeatOnFailure = true
 		rf, rerr, rpanic, fresh, o := w.RedefineCall(target, args)
+		if fc := w.FirstComplete; fc != nil && v.Fail == "" {
+			// the first complete call ended with a body error
+			memoized := false
+			if fe, ok := fc.Err.(*engine.FailErr); ok {
+				if fs := w.Specs[fe.Func]; fs != nil && fs.Once {
+					memoized = true
+				}
+				if fe.Func == engine.TargetID && sc.Target.Once {
+					memoized = true
+				}
+			}
+			if !memoized && o.Err == fc.Err {
+				v.Failf("the redefined function returned the very error object of its previous call although the function that failed is not run-once (stale result)")
+				break
+			}
+			n0 += len(fc.Events)
+			if rep == 0 {
+				v.Class("repeated-after-body-failure")
+			}
+		}
+		if d := w.DeficientOutcome; d != nil && v.Fail == "" {
+			if d.Panic != "" {
+				v.Failf("calling the redefined function without one of its inputs panicked: %s", d.Panic)
+				break
+			}
+			if _, unsat := engine.IsUnsatisfied(d.Err); unsat && o.Err == d.Err {
+				v.Failf("the redefined function, called with every declared input, returned the very error object of an EARLIER call that lacked an input (stale result)")
+				break
+			}
+			// the deficient call's events are not part of the complete call
+			n0 += len(d.Events)
+			if rep == 0 {
+				v.Class("deficient-call-first")
+			}
+		}
 		if rpanic != "" {
 			v.Failf("Redefine panicked: %s", rpanic)
 			break
@@ -245,6 +285,22 @@ func evalC08(c *engine.Case) engine.Verdict {
 		if convFailed {
 			continue
 		}
+		if nT == 0 && sc.Target.Once {
+			// a run-once target that already ran in an earlier call of the
+			// redefined function (the "deficient" one, if it found another
+			// route, or the first complete one) is served from its memo
+			for _, prev := range []*engine.Outcome{w.DeficientOutcome, w.FirstComplete} {
+				if prev == nil {
+					continue
+				}
+				for i := range prev.Events {
+					if prev.Events[i].Func == engine.TargetID && tev == nil {
+						tev = &prev.Events[i]
+						nT = 1
+					}
+				}
+			}
+		}
 		if nT != 1 {
 			v.Failf("the original function body executed %d times in one call of the redefined function", nT)
 			break
@@ -302,7 +358,7 @@ func genC08(g engine.G) *engine.Case {
 	pal := engine.GenPaletteC08(g)
 	b := engine.NewBuilder(g, pal, o)
 	b.Sc.Target = engine.GenTarget(g, pal, 3, o)
-	b.Sc.Target.Once = false
+	b.Sc.Target.Once = g.Pct(15)
 	// positional results so that returned tokens are comparable
 	b.Sc.Target.OutForm = engine.FormPos
 	if b.Sc.Target.Built {
@@ -327,6 +383,13 @@ func genC08(g engine.G) *engine.Case {
 	}
 	if g.Pct(40) {
 		b.Distract(0, 2)
+	}
+	if g.Pct(15) && len(b.Sc.Convs) > 0 {
+		// a transient failure: one converter fails on its first execution only
+		i := g.Int(0, len(b.Sc.Convs)-1)
+		if !b.Sc.Convs[i].Built {
+			b.Sc.Convs[i].HasErr, b.Sc.Convs[i].FailFirst, b.Sc.Convs[i].Fail = true, true, false
+		}
 	}
 	// partition the leaves: kept ones are pre-supplied to Redefine, the types
 	// of the others are what the caller says it can provide (input filter)
